@@ -619,7 +619,10 @@ def ob_potential_algebra():
     f = api.GridFunction(P, coefficients=fc)
     try:
         cases = [(p + q, (Pm + Qm) @ fc, "p+q"), (p - q, (Pm - Qm) @ fc, "p-q"), (-p, -(Pm @ fc), "-p"), ((p + q) + p, (Pm + Qm + Pm) @ fc, "(p+q)+p"),
-                 (2.0 * (p + q), (Pm + Qm) @ fc * 2, "2*(p+q)"), ((2.0 * p) + q, (Pm * 2 + Qm) @ fc, "(2p)+q")]
+                 (2.0 * (p + q), (Pm + Qm) @ fc * 2, "2*(p+q)"), ((2.0 * p) + q, (Pm * 2 + Qm) @ fc, "(2p)+q"),
+                 # an already scaled operator scaled again, negated, subtracted: the factors multiply
+                 ((2.5 * p) * 3.0, Pm @ fc * 7.5, "(2.5p)*3"), (3.0 * (2.5 * p), Pm @ fc * 7.5, "3*(2.5p)"), (-(2.5 * p), Pm @ fc * (-2.5), "-(2.5p)"),
+                 (q - 2.5 * p, (Qm - Pm * 2.5) @ fc, "q-2.5p"), (-(p * 2.0) * 0.5, -(Pm @ fc), "-(p*2)*0.5")]
         for name, s in SCALARS:
             sc = S.Sym.const(complex(s) if np.iscomplexobj(s) else float(s))
             cases += [(s * p, Pm @ fc * sc, "%s*p" % name), (p * s, Pm @ fc * sc, "p*%s" % name)]
@@ -693,7 +696,7 @@ def ob_potential_native():
     if rp["violates"]:
         return violated("composite potential operators act wrongly on a grid function: %s" % rp["failing"][:4], witness={"failing": rp["failing"]}, signature="potential/native",
                         replay={"callable": "checks.c14:replay_potential_composites", "kwargs": {}, "confirmed": True, "result": rp})
-    return held("8 composite expressions x 3 application forms")
+    return held("12 composite expressions x 3 application forms")
 
 
 def replay_potential_composites():
@@ -711,7 +714,9 @@ def replay_potential_composites():
     f = api.GridFunction(sp, coefficients=rng.randn(sp.global_dof_count) + 1j * rng.randn(sp.global_dof_count))
     vs, vd = s_.evaluate(f), d_.evaluate(f)
     cases = [("s+d", lambda: s_ + d_, vs + vd), ("d-s", lambda: d_ - s_, vd - vs), ("-s", lambda: -s_, -vs), ("2.5*s", lambda: 2.5 * s_, 2.5 * vs), ("s*(1-2j)", lambda: s_ * (1 - 2j), (1 - 2j) * vs),
-             ("(s+d)+s", lambda: (s_ + d_) + s_, 2 * vs + vd), ("2*(s+d)", lambda: 2.0 * (s_ + d_), 2 * (vs + vd)), ("-(d-s)", lambda: -(d_ - s_), vs - vd)]
+             ("(s+d)+s", lambda: (s_ + d_) + s_, 2 * vs + vd), ("2*(s+d)", lambda: 2.0 * (s_ + d_), 2 * (vs + vd)), ("-(d-s)", lambda: -(d_ - s_), vs - vd),
+             ("(2.5*s)*3", lambda: (2.5 * s_) * 3.0, 7.5 * vs), ("-(2.5*s)", lambda: -(2.5 * s_), -2.5 * vs), ("d-1j*0.7*s", lambda: d_ - 1j * 0.7 * s_, vd - 0.7j * vs),
+             ("s*1j*0.7", lambda: s_ * 1j * 0.7, 0.7j * vs)]
     failing = []
     for lab, mk, want in cases:
         try:
